@@ -23,6 +23,7 @@ CONSTANTS
   GENBAL = 9
   FAILBUDGET = 4
   FRESH = TRUE
+  WANTED = {}
   PREFUND = 5
   PREDEL = 0
   EVENTS = {"Delegate","Undelegate","Slash","EndBlock","ReleaseHold"}
